@@ -177,3 +177,38 @@ def check(res, tier, seed):
                         monitor_hits=hits)
     res.assumptions += ["the extractor's list of shared locations is complete (trusted)", "channel operations and sync primitives synchronise as the Go memory model says",
                         "user-supplied transport/serializer functions are thread-safe (premise of the property)"]
+
+
+# ---------------------------------------------------------------- atomicity assumptions of the models
+EXPECTED_SECTIONS = {
+    ("go/pkg/utils/broadcaster.go", "Publish"): 1, ("go/pkg/utils/broadcaster.go", "Receive"): 1,
+    ("go/pkg/utils/broadcaster.go", "Free"): 1, ("go/pkg/utils/broadcaster.go", "Close"): 1,
+    ("go/pkg/rpc/manager.go", "CallClosure"): 1, ("go/pkg/rpc/manager.go", "registerClosure"): 2,
+}
+
+
+def critical_sections():
+    """number of Lock() calls in each method whose body the models treat as ONE atomic step"""
+    out = {}
+    for (f, fn), want in EXPECTED_SECTIONS.items():
+        src = open(os.path.join(C.REPO, f)).read()
+        m = re.search(r"\nfunc (?:\([^)]*\) )?%s\b.*?\n}\n" % fn, src, re.S)
+        body = m.group(0) if m else ""
+        out[(f, fn)] = (len(re.findall(r"\.(?:Lock|RLock)\(\)", body)), want)
+    return out
+
+
+def atomicity_obligation(res, hits):
+    """The models (Bcast.v, Link.v, Closure.v) make each table operation one atomic step; that is only
+    faithful while each of these methods has a single critical section."""
+    bad = [(f, fn, got, want) for (f, fn), (got, want) in critical_sections().items() if got != want]
+    res.coverage["obligations"] = res.coverage.get("obligations", 0) + 1
+    if not bad:
+        if res.coverage.get("discharged"):
+            res.coverage["discharged"] += 1
+        return True
+    res.violation("atomicity-assumption", "the models treat %s as one critical section each, but the source now has %s: the correspondence (Bcast.bstep / Link.lstep atomic table operations) is no longer justified" % (
+        ", ".join("%s.%s" % (os.path.basename(f), fn) for f, fn, _, _ in bad), ", ".join("%d lock acquisitions in %s" % (got, fn) for _, fn, got, _ in bad)),
+        dict(kind="atomicity", offenders=[dict(file=f, function=fn, lock_calls=got, expected=want) for f, fn, got, want in bad],
+             theorem="Bcast.v / Link.v step granularity (DESIGN.md §2.2)"), no_failing_input=(hits == 0))
+    return False
